@@ -4,9 +4,10 @@
    streams are left as they were; a path is opened by pane and closed on normal and exceptional
    exit; every reader / writer goes through open_file, UTF-8 by default) -- read from the source
    by AST; the file round trip as a composition of the serialiser law, the list-vs-tuple
-   insensitivity of reading (proved on the container fragment) and C05. *)
+   insensitivity of reading (proved for [norm_ty]: scalars, None, scalar literals, sequences, tuples,
+   mappings, struct literal types, unions, conditions and DATACLASSES in both input formats, at any nesting) and C05. *)
 From Coq Require Import List Bool String.
-Require Import Base.Outcome Model.Values Model.Types Model.Conv Model.Into Model.IO Gen.GenIO Lemmas.IOLemmas.
+Require Import Base.Outcome Model.Values Model.Vocab Model.Types Model.Conv Model.Into Model.IO Gen.GenIO Lemmas.IOLemmas Lemmas.NestedRoundTrip Lemmas.FileRoundTrip.
 Import ListNotations.
 
 Theorem C19_caller_stream_left_open : forall s i, with_file s (Stream i) = (s, i).
@@ -35,3 +36,18 @@ Print Assumptions C19_file_roundtrip_composition.
 Theorem C19_reading_ignores_list_vs_tuple_partial : forall t, norm_ty t -> forall v, tc t (normalise v) = tc t v.
 Proof. exact norm_insensitive. Qed.
 Print Assumptions C19_reading_ignores_list_vs_tuple_partial.
+(* non-vacuity: a dataclass with a list-of-tuples field and an optional struct field is in the fragment *)
+Example C19_norm_fragment_example :
+  norm_ty (TClass (mkCls "P" [FStruct; FTuple] false false HNone)
+     [(mkFld "pts" ["pts"] "pts" true false false DNone, TSeq SeqList (TTuple [TScalar SFloat; TScalar SFloat]));
+      (mkFld "meta" ["meta"] "meta" true false false (DValue VNone), TUnion [TStruct [("k"%string, TScalar SStr)]; TNone])]).
+Proof. repeat constructor. Qed.
+(* the file round trip itself, for every type in both fragments (in particular nested plain
+   dataclasses with list / tuple / mapping / Optional fields): what is read back is the value
+   that was written, up to the set-field records *)
+Theorem C19_file_roundtrip_for_types : forall (opts : Type) (dump : opts -> pyval -> string) (load : string -> option pyval),
+  (forall o d, load (dump o d) = Some (normalise d)) ->
+  forall t o v x, rt2_ty t -> norm_ty t -> tc t v = Ok x ->
+  exists text x', write opts dump o t x = Ok text /\ read load t text = COk x' /\ same_val x' x.
+Proof. exact file_roundtrip_types. Qed.
+Print Assumptions C19_file_roundtrip_for_types.
